@@ -51,8 +51,9 @@ Theorem C03_claim_undelegation_unguarded_refuted : ~ no_foreign_debit h_claim_un
 Proof. exact claim_undelegation_unguarded_refuted. Qed.
 Print Assumptions C03_claim_undelegation_unguarded_refuted.
 
-(* ---- the full statement fails for two handlers of the tree (witnesses replayed on the real
-   code by harness/cmd/c03; known findings) ... *)
+(* ---- the full statement fails for JoinDappVerifierWithBond as the tree has it (known finding,
+   replayed on the real code by harness/cmd/c03) and for the bare shape of the custody reward
+   transfer, which is why that site is audited and carried by the custody theorems instead *)
 Theorem C03_join_verifier_refuted : ~ no_foreign_debit h_l2_join_verifier.
 Proof. exact join_verifier_refuted. Qed.
 Print Assumptions C03_join_verifier_refuted.
@@ -64,13 +65,17 @@ Theorem C03_join_verifier_partial : no_foreign_debit h_l2_join_verifier_fixed.
 Proof. exact join_verifier_fixed_safe. Qed.
 Print Assumptions C03_join_verifier_partial.
 
-(* ---- custody: release only after the approval threshold, to the recorded beneficiary *)
-Theorem C03_custody_release_only_after_threshold_refuted :
-  ~ (forall cfg e caller legit, custody_spec cfg e caller legit).
-Proof. exact custody_release_only_after_threshold_refuted. Qed.
-Print Assumptions C03_custody_release_only_after_threshold_refuted.
+(* ---- custody: the owner is debited only by a listed custodian's approval, and the transfer is
+   released only when the votes on record (one per fresh listed custodian) reach the share *)
+Theorem C03_custody_release_only_after_threshold : forall cfg e caller, custody_spec cfg e caller.
+Proof. exact custody_release_only_after_threshold. Qed.
+Print Assumptions C03_custody_release_only_after_threshold.
+(* the custodian check is necessary: the body without it (the code before 30f99e5) is refuted *)
+Theorem C03_custody_unchecked_refuted : ~ (forall cfg e caller, custody_spec_of custody_approve_any cfg e caller).
+Proof. exact custody_unchecked_refuted. Qed.
+Print Assumptions C03_custody_unchecked_refuted.
 Theorem C03_custody_release_partial :
-  forall cfg e caller b b' left, custody_approve cfg e caller b = Ok (b', left) ->
+  forall cfg e caller b b' left, custody_approve_any cfg e caller b = Ok (b', left) ->
   (forall x d, x <> ce_owner e -> b' x d >= b x d) /\
   (forall d, b (ce_owner e) d - b' (ce_owner e) d
              <= (match left with None => amount_of (ce_coins e) d | Some _ => 0 end)
@@ -79,6 +84,9 @@ Theorem C03_custody_release_partial :
      legit_threshold cfg (legit + 1) = true).
 Proof. exact custody_release_partial. Qed.
 Print Assumptions C03_custody_release_partial.
+Example C03_custody_nonvacuous :
+  exists b' , custody_approve w_cfg w_entry 6 w_bal5 = Ok (b', None) /\ b' 3 "ukex" = 400 /\ b' 6 "ukex" = 50.
+Proof. exact custody_nonvacuous. Qed.
 
 (* ---- rotation needs the recovery secret, or half of the recovery tokens *)
 Theorem C03_rotation_requires_secret_or_half_rr :
@@ -96,8 +104,10 @@ Print Assumptions C03_rotation_requires_secret_or_half_rr.
 Definition audited_sites : list string := [
   (* findings (known-findings.txt) *)
   "layer2.JoinDappVerifierWithBond/JoinDappVerifierWithBond/field:Interx->module:layer2";    (* bond taken from msg.Interx *)
-  "custody.ApproveTransaction/sendReward/field:TargetAddress->signer:FromAddress";           (* reward to any caller *)
-  "custody.DeclineTransaction/sendReward/field:TargetAddress->signer:FromAddress";           (* reward to any caller *)
+  (* the reward share the owner offered, paid to a LISTED custodian of the target (membership is
+     checked first since 30f99e5; custody theorems; repeats are caught by the monitor's ghost record) *)
+  "custody.ApproveTransaction/sendReward/field:TargetAddress->signer:FromAddress";
+  "custody.DeclineTransaction/sendReward/field:TargetAddress->signer:FromAddress";
   (* the sanctioned release: recorded owner pays the recorded beneficiary (threshold: custody theorems) *)
   "custody.ApproveTransaction/ApproveTransaction/stored:tx.FromAddress->stored:tx.ToAddress";
   "custody.PasswordConfirm/PasswordConfirm/stored:tx.FromAddress->stored:tx.ToAddress";
